@@ -11,6 +11,9 @@ PID = "C11"
 PLATFORMS = ["cisco_iosxe", "cisco_iosxr", "cisco_nxos", "arista_eos", "juniper_junos"]
 PLAT = {"cisco_iosxe": "iosxe", "cisco_iosxr": "iosxr", "cisco_nxos": "nxos", "arista_eos": "eos", "juniper_junos": "junos"}
 BODIES = ["", "x", "r", "c", "xr", "cox"]
+# how else the BODY of a with-block may end: user code raising one specific class (letters of harness/c11rig.BODY_RAISES);
+# 'Z' = the task is cancelled while the body awaits (asyncio stack only)
+BODY_ENDINGS = ["T", "E", "N", "A", "P", "V", "K"]
 TELNET_LIMIT = 10     # the oracle's own constant (the option counter limit of the sync transport)
 
 F_CLOSE = "C11-close-skips-release"
@@ -97,6 +100,11 @@ def configs(tier):
                                       ("sync", "juniper_junos", "path", "ok", "raise"), ("async", "generic", "path", "none", "none"),
                                       ("sync", "arista_eos", "bytesio", "default", "default")):
         out.append(dict(stack=stack, platform=plat, kind="sim", sink=sink, on_open=oo, on_close=oc, tclose_raises=True))
+    # Settings.NO_TERMINATE_ON_TIMEOUT = True (documented, non-default): a timeout raises ScrapliTimeout and leaves the transport open
+    for stack, plat, sink, oo, oc in (("sync", "cisco_iosxe", "path", "default", "default"), ("async", "juniper_junos", "path", "default", "default"),
+                                      ("sync", "generic", "true", "default", "default"), ("async", "cisco_nxos", "bytesio", "ok", "none"),
+                                      ("sync", "arista_eos", "path", "none", "ok"), ("async", "generic", "path", "default", "raise")):
+        out.append(dict(stack=stack, platform=plat, kind="sim", sink=sink, on_open=oo, on_close=oc, no_terminate=True))
     # the two in-channel authentication branches of open()
     for plat in ("cisco_iosxe", "juniper_junos"):
         out.append(dict(stack="sync", platform=plat, kind="sim", sink="path", on_open="default", on_close="default", tname="system", bypass=False))
@@ -119,6 +127,70 @@ def telnet_configs():
         out.append(dict(stack=stack, platform="cisco_iosxr", kind="faketelnet", sink="path", on_open="default", on_close="default", neg=3, partial=False,
                         bypass=False, login="refuse", **({"timeout_ops": 2} if stack == "async" else {})))
     return out
+
+
+def _hist(words):
+    return [{"op": w.split(".")[0], **({"body": w.split(".")[1]} if "." in w else {})} for w in words.split()]
+
+
+def body_ending_configs(tier):
+    """transport kinds x stacks the with-body endings are run on (sim under every transport name, the real Telnet transports on
+    fake sockets), each with NO_TERMINATE_ON_TIMEOUT off and on"""
+    out = []
+    sims = [("sync", "cisco_iosxe", "path", "system", True), ("sync", "juniper_junos", "true", "telnet", False), ("sync", "generic", "bytesio", "paramiko", True),
+            ("sync", "arista_eos", "path", "system", False), ("async", "cisco_iosxr", "path", "asyncssh", True), ("async", "generic", "true", "asynctelnet", True),
+            ("async", "cisco_nxos", "none", "asyncssh", True), ("async", "juniper_junos", "path", "asynctelnet", False)]
+    for i, (stack, plat, sink, tname, bypass) in enumerate(sims):
+        c = dict(stack=stack, platform=plat, kind="sim", sink=sink, on_open="default", on_close=("default", "none", "ok")[i % 3] if plat != "generic" else "default",
+                 tname=tname, bypass=bypass, **({"timeout_ops": 2} if tname == "asynctelnet" and not bypass else {}))
+        out.append(c)
+    for stack in ("sync", "async"):
+        out.append(dict(stack=stack, platform="generic", kind="faketelnet", sink="path", on_open="default", on_close="default", neg=3, partial=False, bypass=True))
+        out.append(dict(stack=stack, platform="cisco_iosxe", kind="faketelnet", sink="true", on_open="default", on_close="default", neg=10, partial=False, bypass=True))
+    return out
+
+
+def body_ending_cases(ck, runner, batch, tier):
+    """context-manager histories whose BODY ends with every kind of exception x transport kinds x sync/asyncio:
+    (a) user code raising ScrapliTimeout / ScrapliConnectionError / ScrapliConnectionNotOpened / ScrapliAuthenticationFailed /
+        ScrapliPrivilegeError / ValueError / a non-Exception BaseException, and (asyncio) a real task cancellation;
+    (b) an operation in the body timing out at EVERY read index: the closing handler (default), the handler with
+        Settings.NO_TERMINATE_ON_TIMEOUT (transport left open), ScrapliTimeout raised by the transport read itself
+        (TelnetTransport._read on socket.timeout; nothing closed), and the device dropping"""
+    from harness import c11rig
+    cfgs = body_ending_configs(tier)
+    n = 0
+    for ci, cfg in enumerate(cfgs):
+        ends = BODY_ENDINGS + (["Z"] if cfg["stack"] == "async" else [])
+        for nt in (False, True):
+            for ei, e in enumerate(ends):
+                shapes = [f"W.{e}", f"W.x{e} W.x", f"W.c{e}", f"O C W.{e} O X C"]
+                if tier == "quick":
+                    shapes = [shapes[0], shapes[1 + (ei + ci + nt) % 3]]
+                for sh in shapes:
+                    c = dict(cfg, **({"no_terminate": True} if nt else {})); c["ops"] = _hist(sh)
+                    n += run_cases(ck, runner, [c], batch, tags=("body-ending",))
+        for sh in (("W.x", "W.xx W.x", "O X C W.x") if tier != "quick" else ("W.x", "O X C W.x" if ci % 2 else "W.xx W.x")):
+            h = _hist(sh)
+            c = dict(cfg); c["ops"] = [dict(s) for s in h]
+            try:
+                dry = runner.run(c)
+            except c11rig.RigTrouble:
+                continue
+            for oi, (spec, res) in enumerate(zip(h, dry)):
+                if spec["op"] == "C":
+                    continue
+                ks = list(range(1, res["reads"] + 1))
+                if spec["op"] == "W" and len(ks) > 4 and tier == "quick" and oi:
+                    ks = ks[-4:]
+                for k in ks:
+                    for nt, action in ((False, "rtimeout"), (True, "silent"), (True, "rtimeout")):
+                        if tier == "quick" and nt and action == "rtimeout" and k % 2:
+                            continue
+                        c2 = dict(cfg, **({"no_terminate": True} if nt else {})); c2["ops"] = [dict(s) for s in h]
+                        c2["ops"][oi]["fault"] = ["read", k, action]
+                        n += run_cases(ck, runner, [c2], batch, tags=("body-timeout",))
+    ck.extra["body_ending_cases"] = n
 
 
 # ------------------------------------------------------------------ model I/O
@@ -264,6 +336,14 @@ def oracle(case, results, fresh_outcomes):
             if body and "r" not in body and body_leaves_open(body, True) is False and body.rstrip("x").endswith("c") \
                     and res["out"] == "ScrapliConnectionNotOpened":
                 yield ("reclose", i, f"with-block whose body closed the connection: __exit__ (second close) raised {res['out']}", {})
+        if spec["op"] == "W" and res.get("body_exc"):
+            # the exception the body ended with leaves the with statement unchanged, unless the on_close hook / transport.close()
+            # raised on the way out (then that one, with the body's as its context)
+            if res.get("left_with") == "swallowed":
+                yield ("swallow", i, f"with-block whose body raised {res['body_exc']} returned normally: __exit__ swallowed the exception", {})
+            elif res.get("left_with") == "replaced" and not res["on_close_raised"] and not res.get("tclose_raised"):
+                yield ("replaced", i, f"with-block whose body raised {res['body_exc']} raised {res['out']} instead although neither the on_close "
+                                      "hook nor transport.close() raised", {})
         closed = spec["op"] in ("C", "W")
     # a closed connection can be opened again: fault-free segments after the first behave as on a new connection
     segs = segments(ops)
@@ -381,6 +461,8 @@ def evaluate(ck, runner, case, results, batch, tags=()):
             tags=(f"stack={case['stack']}", f"kind={case.get('kind', 'sim')}", f"platform={case['platform']}", f"sink={case.get('sink', 'none')}",
                   f"on_open={case.get('on_open', 'default')}", f"on_close={case.get('on_close', 'default')}", f"len={len(case['ops'])}",
                   *(("tclose-raises",) if case.get("tclose_raises") else ()),
+                  *(("no-terminate-on-timeout",) if case.get("no_terminate") else ()),
+                  *("body-ends-with=" + r["body_exc"] for r in results if r.get("body_exc")),
                   "fault=" + ",".join(sorted({(s['fault'][0] + ":" + s['fault'][2]) for s in case['ops'] if s.get('fault')}) or ["none"]),
                   *("out=" + r["out"] for r in results), *tags))
     viol = []
@@ -450,12 +532,16 @@ def run(tier, seed):
     ck.rule = ("case = configuration (stack sync|asyncio x platform {5 core, generic} x channel_log sink {none, path, True, BytesIO} x "
                "on_open/on_close {platform default, user ok, user raises, None} x in-channel auth on/off) + well-formed history over "
                "{open, close, operate, with[body in '', x, r, c, xr, cox]} + at most one fault per operation (k-th read | k-th write of that "
-               "operation: device gone | device silent => timeout closes the transport; transport.open refused). Exhaustive: every "
+               "operation: device gone | device silent => timeout closes the transport, or with Settings.NO_TERMINATE_ON_TIMEOUT leaves it open | "
+               "device silent => the transport read itself raises ScrapliTimeout, nothing closed; transport.open refused) + with-bodies ending with "
+               "user code raising ScrapliTimeout / ScrapliConnectionError / ScrapliConnectionNotOpened / ScrapliAuthenticationFailed / "
+               "ScrapliPrivilegeError / ValueError / a non-Exception BaseException / a real asyncio task cancellation, on every transport name "
+               "and on the real Telnet transports. Exhaustive: every "
                "well-formed history up to length N fault-free, and EVERY read/write index x both fault kinds for every history up to "
                "length N-1 (configurations rotated); the real Telnet transports on fake sockets (negotiation counts 0..12, partial option "
                "command at EOF); PRNG histories up to length 7 with several faults. Non-trivial = more than one operation or a fault. "
-               "Each case runs the REAL driver; oracle: after close()/with-exit nothing is held (flags, /proc/self/fd, threads), a second "
-               "close does not raise, a fault-free segment after a close behaves as on a brand-new connection; the Lean model gets the "
+               "Each case runs the REAL driver; oracle: after close()/with-exit nothing is held (flags, /proc/self/fd, threads), the exception the body "
+               "ended with leaves the with statement unchanged, a second close does not raise, a fault-free segment after a close behaves as on a brand-new connection; the Lean model gets the "
                "same environment events and must reach the same statements, outcome and flags.")
     ck.trusted = ["Lean 4.33.0 kernel; axioms of every theorem audited ⊆ {propext, Classical.choice, Quot.sound}",
                   "tools/gen/c11.py (AST -> statement programs of open/close/__enter__/__exit__, hook call sequences, three facts)",
@@ -466,7 +552,7 @@ def run(tier, seed):
                       "CPython reference counting frees a dropped socket / PtyProcess at once (sockets of a refused connect, replaced sessions)",
                       "open()/with only on a connection that is closed (fresh or after close()/with-exit): open() twice without close() is outside the property",
                       "a stall is turned into what scrapli.decorators._handle_timeout does (real function called) when the operation's timer fires; "
-                      "the real timer mechanisms run in the thorough tier only; Settings.NO_TERMINATE_ON_TIMEOUT is off"]
+                      "the real timer mechanisms run in the thorough tier only; Settings.NO_TERMINATE_ON_TIMEOUT off AND on (dedicated configurations)"]
     mine = load_findings(ck)
     # 1 translate
     try:
@@ -525,6 +611,9 @@ def run(tier, seed):
                 break
         ck.extra["fault_point_cases"] = nfault
         ck.extra["phase_s"]["fault-points"] = round(time.time() - tp, 1); tp = time.time()
+        # 3c' every way the body of a with-block may end x transport kinds x stacks
+        body_ending_cases(ck, runner, batch, tier)
+        ck.extra["phase_s"]["body-endings"] = round(time.time() - tp, 1); tp = time.time()
         # 3d the real Telnet transports over fake sockets
         tshapes = ["O C O X C", "O X C O X", "W.x W.x", "W.x W.x W.x", "O C O C O X", "W.r O X C", "O X C"]
         for tc in telnet_configs():
@@ -559,6 +648,10 @@ def run(tier, seed):
                 if well_formed(h + [s]):
                     if ck.rng.random() < 0.35:
                         s["fault"] = [ck.rng.choice(["read", "read", "write"]), ck.rng.randint(1, 12), ck.rng.choice(["eof", "silent"])]
+                        if s["fault"][0] == "read" and ck.rng.random() < 0.2:
+                            s["fault"][2] = "rtimeout"
+                    if s["op"] == "W" and ck.rng.random() < 0.2:
+                        s["body"] = s.get("body", "") + ck.rng.choice(BODY_ENDINGS + (["Z"] if c["stack"] == "async" else []))
                     elif s["op"] in ("O", "W") and ck.rng.random() < 0.08:
                         s["fault"] = ["open", 0, "refuse"]
                     h.append(s)
